@@ -321,6 +321,14 @@ def check(tier):
             elif tree is not None:
                 t2, pp = tree_from_eval_log(T, re_.get("log", []), s)
                 dist["eval"] += 1
+                # the values handed over stay the ones handed over: the hook keeps each argument slice and renders it
+                # again after the parse (a callback that builds a tree keeps them in just this way)
+                after = re_.get("args_after")
+                if after is not None and after != [e[2] for e in re_.get("log", [])]:
+                    k = next((i for i, (a, e) in enumerate(zip(after, re_["log"])) if a != e[2]), None)
+                    problems.append(("eval-values-kept", s, le, {"note": "the arguments of an evaluation call read differently after the parse",
+                                                                  "call": k, "at_call": re_["log"][k][2] if k is not None else None,
+                                                                  "after_parse": after[k] if k is not None else None}))
                 strip = lambda t: t if t[0] == "leaf" else ("node", t[1], [strip(c) for c in t[2]])
                 if pp or strip(t2) != strip(tree):
                     problems.append(("eval-plumbing", s, le, {"problems": pp, "eval_tree": t2, "ast_tree": tree}))
